@@ -365,13 +365,16 @@ def stats_cases(draw, tier):
     change = None
     if draw(st.booleans()):
         # parameters changed in mid-run (after at least one generated chunk): the moments AFTER the change are tested
-        kind = draw(st.sampled_from(["vol", "vol", "drift", "corr"] if n >= 2 else ["vol", "vol", "drift"]))
+        kind = draw(st.sampled_from(["vol", "vol", "drift", "corr", "shock", "shock"] if n >= 2 else ["vol", "vol", "drift", "shock"]))
         i = draw(st.integers(0, n - 1))
         at = draw(st.sampled_from([100, 150, 250, 1000]))
         if kind == "vol":
             change = {"kind": "vol", "market": i, "value": draw(st.sampled_from([0.002, 0.02, 0.1])), "at": at}
         elif kind == "drift":
             change = {"kind": "drift", "market": i, "value": draw(st.sampled_from([0.003, -0.002, 0.0, 0])), "at": at}
+        elif kind == "shock":
+            # a price shock through the real Market.change_fundamental_price: moments and correlations of ALL markets after it
+            change = {"kind": "shock", "market": i, "value": draw(st.sampled_from([0.7, 1.2, 2.0])), "at": draw(st.sampled_from([30, 100, 150]))}
         else:
             change = {"kind": "corr", "market": 0, "other": 1, "value": draw(st.sampled_from([-0.6, 0.0, 0.7])), "at": at}
     return {"seed": draw(st.integers(0, 2**31 - 1)), "markets": markets, "corr": corr, "N": 20000 if tier == "quick" else 50000,
@@ -379,7 +382,11 @@ def stats_cases(draw, tier):
 
 
 def stats_check(case):
-    f, volm, pairs = build(case)
+    sim = None
+    if (case.get("change") or {}).get("kind") == "shock":
+        f, volm, pairs, sim = build(case, with_markets=True)
+    else:
+        f, volm, pairs = build(case)
     N = case["N"]
     n = len(case["markets"])
     series = []
@@ -388,8 +395,14 @@ def stats_check(case):
     t0 = 0
     if ch is not None:
         t0 = ch["at"]
+        if ch["kind"] == "shock":
+            for _ in range(t0 + 1):
+                _call(sim._update_times_on_markets, sim.markets)  # clocks -1 -> t0, as the runner advances them
         before = [_call(f.get_fundamental_prices, market_id=i, times=range(t0 + 1)) for i in range(n)]
-        if ch["kind"] == "vol":
+        if ch["kind"] == "shock":
+            _call(sim.markets[ch["market"]].change_fundamental_price, scale=ch["value"])
+            before[ch["market"]][t0] *= ch["value"]
+        elif ch["kind"] == "vol":
             if ch["value"] == markets[ch["market"]]["vol"]:
                 ch = None
             else:
@@ -418,7 +431,10 @@ def stats_check(case):
                 pairs = trial
         if ch is not None:
             after = [_call(f.get_fundamental_prices, market_id=i, times=range(t0 + 1)) for i in range(n)]
-            if after != before:
+            if ch["kind"] == "shock":
+                if not all(math.isclose(x, y, rel_tol=1e-12) for a_, b_ in zip(after, before) for x, y in zip(a_, b_)):
+                    raise Violation("C12.history_changed", f"a shock of market {ch['market']} at time {t0} altered other values at times <= {t0}")
+            elif after != before:
                 raise Violation("C12.history_changed", f"a {ch['kind']} change at time {t0} altered values at times <= {t0}")
     case = dict(case, markets=markets)
     if case["chunked"]:
@@ -462,9 +478,14 @@ def probe_cases(draw, tier):
     # parameter changes made before anything is generated (time 0): the transform must reflect the FINAL settings, and a
     # correlation that was configured and never removed stays configured (also across volatility 0 -> v)
     pre = []
-    for _ in range(draw(st.integers(0, 4)) if draw(st.booleans()) else 0):
-        kind = draw(st.sampled_from(["vol0", "vol", "vol", "drift", "corr", "uncorr"]))
+    focus = (draw(st.integers(0, n - 1)), draw(st.integers(0, n - 1)))  # most correlation operations hit one pair, named in either order
+    for _ in range(draw(st.integers(0, 6)) if draw(st.booleans()) else 0):
+        kind = draw(st.sampled_from(["vol0", "vol", "vol", "drift", "corr", "corr", "corr", "uncorr"]))
         i = draw(st.integers(0, n - 1))
+        if kind in ("corr", "uncorr") and focus[0] != focus[1] and draw(st.integers(0, 2)) > 0:
+            a, b = focus if draw(st.booleans()) else focus[::-1]
+            pre.append(["corr", a, b, draw(st.sampled_from([-0.8, -0.4, 0.3, 0.7]))] if kind == "corr" else ["uncorr", a, b])
+            continue
         if kind == "vol0":
             pre.append(["vol", i, 0.0])
         elif kind == "vol":
